@@ -24,7 +24,8 @@ FORBIDDEN_UNDER_LOCK = {"BLOCK-IO", "CHAN-RECV", "WAIT-TURN-W", "WAIT-TURN-R", "
 ENQUEUE = {"push_back", "push_front", "insert", "extend", "append"}
 
 STD_SMALL = re.compile(r"^std::(option::Option|result::Result)::<|^std::cmp::Ordering::"
-                       r"|^<std::(option::Option|result::Result)<.*> as std::ops::(Try|FromResidual)")
+                       r"|^<std::(option::Option|result::Result)<.*> as std::ops::(Try|FromResidual)"
+                       r"|^<T as std::convert::Into<U>>::into$")
 
 
 def std_small(d):
